@@ -50,6 +50,33 @@ def gen(chk, mpmath, rng):
             yield ex.allj(*js), {"key": "relations/zetazero-nzeros", "n": n, "p": p, "what": "zetazero / nzeros / siegelz relations fail"}
         except (ValueError, mpmath.libmp.NoConvergence):
             yield None
+    # Rosser-rule exception blocks (indices above 1.3e7): every zero of a block and its neighbours, from a - 1 to b + 2.
+    # The ordinates must increase strictly, Z must change sign across each of them, and keep one sign between consecutive
+    # ones (alternating from gap to gap), so that the run of returned zeros is a run of CONSECUTIVE zeros.
+    from mpmath.functions import zetazeros as _zz
+    table = _zz._ROSSER_EXCEPTIONS
+    blocks = [table[2 * k] for k in range(len(table) // 2)]
+    picks = [blocks[0]] + rng.sample(blocks[1:40], chk.pick(1, 12))
+    for a, b in picks:
+        p = 53; mp.prec = p
+        try:
+          with oblcommon.time_limit(chk.pick(240, 600)):            # about 0.5 s per zero on the unchanged tree
+              gs = [mp.zetazero(n).imag for n in range(a - 1, b + 3)]
+              js = [ex.lt(gs[i], gs[i + 1]) for i in range(len(gs) - 1)]
+              mids = [mp.siegelz((gs[i] + gs[i + 1]) / 2) for i in range(len(gs) - 1)]
+              js += [ex.lt(ex.mul(mids[i], mids[i + 1]), 0) for i in range(len(mids) - 1)]
+              # no further sign change inside a gap: quarter points carry the sign of the midpoint
+              for i in range(len(gs) - 1):
+                  for t in (1, 3):
+                      q = mp.siegelz(gs[i] + (gs[i + 1] - gs[i]) * t / 4)
+                      js.append(ex.lt(0, ex.mul(q, mids[i])))
+              js.append(ex.eq(int(mp.nzeros((gs[1] + gs[2]) / 2)), a))
+              js.append(ex.eq(int(mp.nzeros((gs[-2] + gs[-1]) / 2)), b + 1))
+          yield ex.allj(*js), {"key": "rosser-block", "block": [a, b], "p": p, "what": "zeros around a Rosser-rule exception block are not consecutive / increasing, or nzeros disagrees"}
+        except oblcommon.TimeLimit:
+            yield {"j": "false"}, {"key": "rosser-block/timeout", "block": [a, b], "p": p, "what": "zetazero / nzeros around a Rosser-rule exception block did not return within the time limit (0.5 s per zero on the unchanged tree)"}
+        except (ValueError, mpmath.libmp.NoConvergence):
+            yield None
     for i in range(chk.pick(15, 200)):
         p = rng.choice([53, 80]); mp.prec = p
         n = rng.randint(0, chk.pick(200, 5000))
